@@ -247,7 +247,12 @@ class Flow:
                 return inner + op
             return op + inner
         if k in ("BinaryOperator", "CompoundAssignOperator"):
-            return "(%s %s %s)" % (self.canon(s, ch[0], depth), n.get("opcode"), self.canon(s, ch[1], depth))
+            l_, r_ = self.canon(s, ch[0], depth), self.canon(s, ch[1], depth)
+            if n.get("opcode") == "-" and l_.startswith("&" + r_ + "[") and l_.endswith("]"):
+                inner_ = l_[len(r_) + 2:-1]
+                if inner_.count("[") == inner_.count("]"):
+                    return inner_                      # &A[i] - A  ==  i
+            return "(%s %s %s)" % (l_, n.get("opcode"), r_)
         if k == "ArraySubscriptExpr":
             return "%s[%s]" % (self.canon(s, ch[0], depth), self.canon(s, ch[1], depth))
         if k == "ConditionalOperator":
